@@ -32,4 +32,4 @@ for c in $CHECKS; do
   VERIF_REPO=$S ./check $c > $OUT/check_$c.log 2>&1; echo "exit=$?" | tee -a $OUT/check_$c.log
   grep -E "^VIOLATION|^KNOWN|obligations" $OUT/check_$c.log | cut -c1-220
 done
-rm -rf $S
+rm -rf $S; rm -f /verif/.cache/harness-*.test
